@@ -444,6 +444,10 @@ def grid_cases(ctx):
                 if j == 0:
                     kind = "list"           # a read is in flight while the edits behind it are requested
                 nm = r.choice(names_pool)
+                if j == 1:
+                    kind, nm = "set_metadata_for", names_pool[0]     # an edit of one child ...
+                elif j == 2:
+                    kind, nm = ("delete" if seed % 2 == 0 else "set_uri"), names_pool[0]   # ... directly followed by another edit of it
                 if kind == "list":
                     expect.append(("names", sorted(model)))
                     ops.append((kind, None, None))
